@@ -30,14 +30,14 @@ CLAIMED = {
          "Exploration: generator biased to closures capturing params/lets/pattern variables/Refs/other closures, nested closures, closures called from other scopes; behaviour oracle of C01. Flows of closures into declared function-typed positions are excluded while KF-05 is open (counted).",
          PROG_NOTE, "DESIGN.md §5 C08"),
  "C09": ("differential PBT on tick traces: effects planted in every operand/argument/condition/branch position",
-         "Exploration: generator biased to effects: print ticks in operands, call arguments, && / || operands, if/match/while conditions and branches, discarded lets, Ref updates, operations that fail at run time; the sequence of printed lines and the failure point of the emitted Go must equal the reference run. The goroutine part of the property (go e) is not yet covered by this check.",
+         "Exploration: generator biased to effects: print ticks in operands, call arguments, && / || operands, if/match/while conditions and branches, discarded lets, Ref updates, operations that fail at run time; the sequence of printed lines and the failure point of the emitted Go must equal the reference run. A separate phase generates programs with `go`: all schedules (stateless DFS over choice points before every Ref access/print/spawn) are enumerated with the reference interpreter and replayed under miniGo's deterministic scheduler.",
          PROG_NOTE, "DESIGN.md §5 C09"),
  "C05": ("exhaustive scope skeletons + shadowing-biased random programs; resolution read from the HIR and compared with the generator's binder for every use",
          "Exploration: every sequence of <=5 (quick) / <=6 (thorough) scope operations over two names (let, use, open/close if-block, match arm, closure, while body) is turned into a program, plus random longer skeletons and type-directed programs from a 3-name pool. For each accepted program every use's NameRef::Local id must equal the id of the binder the generator intended, a well-scoped program must not be rejected for scoping reasons, an unbound use must be rejected, and the compiled program must print the intended binder's value (reference interpreter vs Go-subset interpreter).",
          "Trusted: the harness' own scoping model (a stack), text-range matching of binders/uses, miniGo for the behavioural part. Depth beyond the enumerated skeleton length is only sampled.",
          "DESIGN.md §5 C05"),
  "C11": ("exhaustive operator pairs/triples (quads thorough) + random syntax trees printed with minimal parentheses and random trivia; parse-back round trip; literal fidelity oracle",
-         "Exploration: all trees over 20 operators of size 2 and 3 (4 in thorough) in three contexts, the same trees fully parenthesised, random whole files over every item/expr/pattern/type form, and enumerated + random literal spellings. Oracle: convert(parse_ast_file(print(t))) == t structurally; a literal's AST value equals the characters/number it denotes. A deliberately wrong printer (omitting needed parentheses) must be rejected by the oracle in setup, else exit 2.",
+         "Exploration: all trees over 20 operators of size 2 and 3 (4 in thorough) in three contexts, the same trees fully parenthesised, random whole files over every item/expr/pattern/type form, and enumerated + random literal spellings. Oracle: convert(parse_ast_file(print(t))) == t structurally; a literal's AST value equals the characters/number it denotes. A deliberately wrong printer (omitting needed parentheses) must be rejected by the oracle for every pair (selftest case), else the run is inconclusive (exit 2).",
          "Trusted: the harness' tree model, printer and AST converter (written from the documented binding powers); derive expansion is avoided in round-trip trees.",
          "DESIGN.md §5 C11"),
  "C04": ("fuzzing-style generated inputs (Unicode/token soups, corpus mutations, deep nesting, JSON artifact mutations) against a crash/diagnostic oracle",
@@ -48,6 +48,38 @@ CLAIMED = {
          "Exploration: every string of <=3 (quick) / <=4 (thorough) symbols over a 46-symbol alphabet covering each token class is enumerated, plus random token/Unicode soups and corpus mutations; each input is judged by a complete oracle (text round-trip, token tiling on char boundaries, leaves==lexer tokens, ranges in bounds, parse twice equal). Absence beyond the explored inputs is not shown.",
          "Trusted: rowan's text(); the harness oracle. Inputs longer than the bounds are only sampled.",
          "DESIGN.md §5 C12"),
+ "C10": ("exhaustive 8-bit literal and operator tables + random wide-integer and float programs; Rust fixed-width/IEEE arithmetic as reference, emitted Go run under the Go-subset interpreter",
+         "Exploration: every int8/uint8 literal spelling (in range, boundary, out of range, with/without suffix/annotation) must be accepted at exactly the written value or rejected; every binary/unary operator on all ordered pairs from a boundary-dense 8-bit value set (tables of 35x35 operand pairs per operator and type); ~40k random programs per class over all ten integer types (boundary, random, MIN/-1, division by zero) and ~30k float32/float64 programs (finite decimals; float32 results rounded per operation); printed results via *_to_string must equal the reference arithmetic.",
+         "Trusted: Rust's wrapping integer and IEEE float arithmetic as the meaning of intN/uintN/floatN; miniGo (calibrated in setup against values fixed by the Go specification); NaN/infinities/negative zero and float overflow are not judged.",
+         "DESIGN.md §5 C10"),
+ "C13": ("generated multi-package projects compiled repeatedly: same process, fresh processes (fresh hash seeds), other root directory and directory creation order; byte equality of Go, stage dumps, diagnostics, interface hashes",
+         "Exploration: ~2000 generated projects (1-4 packages, DAG imports, cross-package generics/traits/impls) plus ~1600 projects with an injected error and the 8 corpus projects: every run (in-process repeat, 1-2 fresh worker processes, a copy created in another directory order under another root) must give byte-identical Go text, Core/Mono/Lift/ANF dumps, the same diagnostics in the same order and identical interface hashes from check and build.",
+         "Trusted: tmpfs directory enumeration follows creation order (varied explicitly); std RandomState reseeds per process. Nondeterminism that needs more than two processes to show is only sampled.",
+         "DESIGN.md §5 C13"),
+ "C14": ("generated multi-package projects: whole-program compile vs check/build per package in random topological orders with artifacts round-tripped through files, then link; behaviour compared under the Go-subset interpreter",
+         "Exploration: ~6000 generated projects and ~2000 with an injected defect plus the 8 corpus projects: acceptance must agree between the two pipelines, the linked program must print what the whole-program one prints (miniGo), the result must not depend on which topological build order was used, and check and build must emit byte-identical interface files.",
+         "Trusted: in-process separate::{check,build}_package / read_core / link_cores with files on disk stand for the CLI; miniGo for both sides.",
+         "DESIGN.md §5 C14"),
+ "C15": ("model-based histories of {edit, check, build, link} over small dependency graphs with a reference staleness model + exhaustive/random single-field corruption of interface/core JSON",
+         "Exploration: ~5000 random histories (typed edit operators: body-only vs interface-changing of 15 kinds; rebuild subsets; link) checked after every step against a model that tracks which interface each package was built against: link must succeed iff nothing is stale and then behave as a fresh whole-program compile, interface-changing edits must change the hash, body-only edits must not; every header field of every artifact (exhaustive) and ~7000 random leaf alterations (with and without recomputed hash) must be rejected.",
+         "Trusted: 'visible to dependents' = everything outside function bodies; staleness propagates through the deps recorded in the hash. Findings KF-55/56/57 gate the shapes they cover.",
+         "DESIGN.md §5 C15"),
+ "C16": ("generated legal package graphs must be accepted; one injected isolation/coherence defect (13 kinds) must be rejected by every entry point",
+         "Exploration: ~2000 legal projects (all placements of types/traits/impls/qualified references permitted by the imports) must compile whole-program and separately; ~9000 projects with exactly one defect (use of a non-imported package in expression/type/pattern position, missing package, misnamed package declaration, import cycle of length 1-3, orphan impl, duplicate impl in one or sibling packages) must be rejected by compile, check, build (+link), independent of directory enumeration order.",
+         "Trusted: a defect counts as reported when an error diagnostic comes back; goml being stricter than the statement (per-file imports) is not judged.",
+         "DESIGN.md §5 C16"),
+ "C17": ("generated trait/impl/receiver programs calling one method through every applicable call form; results must agree with each other and with the impl's body; negative programs (no impl for dyn coercion, ambiguous names) must be rejected",
+         "Exploration: ~20k programs over receivers (primitives, structs, enums, generic instances, tuples; other-package types), inherent and trait methods, called as x.m(a), T::m(x,a), Tr::m(x,a), through T: Tr bounds and through dyn Tr; each prints a per-impl constant combined with its arguments, all forms must print the same under miniGo as the reference; ~4000 programs coercing a type without impl to dyn Tr and ~3000 with ambiguous method names must be rejected; ~2000 inherent/trait name clashes.",
+         "Trusted: miniGo; call forms the language does not offer are not generated (listed in the evidence assumptions).",
+         "DESIGN.md §5 C17"),
+ "C18": ("generated derive(ToString/ToJson) types and values; emitted Go run under the Go-subset interpreter; strict JSON parser + structural decoder as the oracle",
+         "Exploration: ~20k random non-generic struct/enum definitions (nesting, recursion through enums) with random values, ~8000 with field/variant names chosen from generated identifiers and helper names, ~10k with hostile strings (controls, quotes, backslashes, non-BMP, BOM): to_json must parse under a strict RFC 8259 parser, decode back to the value (object per struct, tag/fields per variant), to_string must match the documented rendering; a type the derive cannot handle must be rejected by a derive diagnostic, not by the typer or by Go.",
+         "Trusted: the JSON shape given in the property text and samples; miniGo's %q. Findings KF-36..40 gate the shapes they cover.",
+         "DESIGN.md §5 C18"),
+ "C20": ("fuzzed editor states (prefixes, truncations and mutations of generated and corpus programs) x cursor positions incl. out-of-text; crash oracle; hover type vs generator's type; every completion inserted and type-checked",
+         "Exploration: ~50k (text, line, col) requests to hover_type, dot_completions and colon_colon_completions on prefixes/mutations of valid programs with positions inside, at the edges of and beyond the text must return without panic; ~8000 hovers on local binders/uses of accepted generated programs must print the generator's type; ~24k completion sites: every offered item is inserted after `x.` / `Path::` and the result must type-check.",
+         "Trusted: the generator's type of a local is what a correct compiler assigns (program accepted first); completeness of completion lists is not judged. Findings KF-47..50 gate the shapes they cover.",
+         "DESIGN.md §5 C20"),
 }
 
 NOT_YET = "check not built yet (work in progress; see DESIGN.md Appendix D)"
